@@ -92,6 +92,11 @@ func runC03(p *chk.Prog, r *chk.Report) {
 	// re-adoption judges sharing with the same symmetric test that admitted the co-tenants: a holder is evicted on its
 	// next sync when a newcomer was admitted by a laxer comparison than the one the holder is then judged by
 	c01ShareOK(p, r)
+	// a co-tenant that leaves must not take the address's sharing key with it (KEY-LIFETIME, shared with C01): the
+	// remaining holder is evicted on its next sync by whoever was allocated the "free" address in between
+	c01KeyLifetime(p, r)
+	// "the request changed" rests on isEqualIPs being set equality (SAME-IPS, shared with C02)
+	c02SameIPs(p, r)
 	// restart and failed-write stability (rules shared with C06): the recorded
 	// addresses are re-adopted, assigned services first, before any per-service
 	// event is handled, and a failed status write leaves the allocator's memory alone
